@@ -38,6 +38,12 @@ template <> struct Val<::My::Data<int>> { static ::My::Data<int> make(int k) { r
 template <> struct Val<std::shared_ptr<Incident>> {
     static std::shared_ptr<Incident> make(int k) { auto p = std::make_shared<Incident>(); p->id = k; return p; }
     static std::string show(const std::shared_ptr<Incident>& v) { return v ? "I" + std::to_string(v->id) : "Inull"; } };
+template <> struct Val<const char*> {
+    static const char* make(int k) { static std::vector<std::unique_ptr<std::string>> pool; pool.push_back(std::make_unique<std::string>("c" + std::to_string(k))); return pool.back()->c_str(); }
+    static std::string show(const char* const& v) { return v ? std::string(v) : "cnull"; } };
+template <> struct Val<Incident*> {
+    static Incident* make(int k) { static std::vector<std::unique_ptr<Incident>> pool; pool.push_back(std::make_unique<Incident>()); pool.back()->id = k; return pool.back().get(); }
+    static std::string show(Incident* const& v) { return v ? "P" + std::to_string(v->id) : "Pnull"; } };
 #define VERIF_SIMPLE(T, tag) template <> struct Val<T> { static T make(int k) { return {k}; } static std::string show(const T& v) { return tag + std::to_string(v.v); } };
 VERIF_SIMPLE(type_0_t, "t0_") VERIF_SIMPLE(type_1_t, "t1_") VERIF_SIMPLE(type_2_t, "t2_") VERIF_SIMPLE(type_3_t, "t3_")
 
